@@ -641,7 +641,7 @@ class Pile(Widget, WidgetContainerMixin, WidgetContainerListContentsMixin):
                 if Sizing.FLOW in w_sizing:
                     w_h_args[idx] = (0,)
                 else:
-                    w_sizing[idx] = (0, 0)
+                    w_h_args[idx] = (0, 0)
 
             elif Sizing.FIXED in w_sizing and w_sizing & {Sizing.BOX, Sizing.FLOW}:
                 width, height = widget.pack((), focused)
@@ -781,7 +781,7 @@ class Pile(Widget, WidgetContainerMixin, WidgetContainerListContentsMixin):
                 elif Sizing.FLOW in w_sizing:
                     rows_numbers.append(w.rows((maxcol,), focus=focused))
                 elif Sizing.FIXED in w_sizing and f == WHSettings.PACK:
-                    rows_numbers.append(w.pack((), focused)[0])
+                    rows_numbers.append(w.pack((), focused)[1])
                 else:
                     warnings.warn(
                         f"Unusual widget {i} sizing {w_sizing} for {f.upper()}). "
@@ -797,7 +797,10 @@ class Pile(Widget, WidgetContainerMixin, WidgetContainerListContentsMixin):
         wtotal = 0
         for w, (f, height) in self.contents:
             if f == WHSettings.PACK:
-                rows = w.rows((maxcol,), focus=focus and self.focus == w)
+                if Sizing.FLOW in w.sizing():
+                    rows = w.rows((maxcol,), focus=focus and self.focus == w)
+                else:
+                    rows = w.pack((), focus and self.focus == w)[1]
                 rows_numbers.append(rows)
                 remaining -= rows
             elif f == WHSettings.GIVEN:
